@@ -80,6 +80,25 @@ Theorem C19_extension : forall stem : string,
 Proof. exact extension_spec. Qed.
 Print Assumptions C19_extension.
 
+(* ... and the extension is looked for in the LAST path component only: an output directory whose
+   name contains dots ("runs/analysis_v1.2", "./outdir", "a.b/c") changes nothing - the requested
+   extension is appended and the file <dir>/<stem>.<extension> is the one written *)
+Theorem C19_path_ext : forall dir stem e : string, plain stem = true -> plain e = true ->
+  path_ext (dir ++ "/" ++ stem ++ "." ++ e) = e /\ path_ext (dir ++ "/" ++ stem) = ""%string
+  /\ path_ext (stem ++ "." ++ e) = e /\ path_ext stem = ""%string.
+Proof. exact path_ext_spec. Qed.
+Print Assumptions C19_path_ext.
+
+Theorem C19_extension_paths : forall dir stem e : string, plain stem = true ->
+  e = "json"%string \/ e = "hdf5"%string \/ e = "h5"%string ->
+  let target := (dir ++ "/" ++ stem)%string in
+  choose_writer_p target (Some e) = Ok (writer_of e, (target ++ "." ++ e)%string)
+  /\ choose_writer_p (target ++ "." ++ e) None = Ok (writer_of e, (target ++ "." ++ e)%string)
+  /\ choose_writer_p (target ++ "." ++ e) (Some e) = Ok (writer_of e, (target ++ "." ++ e)%string)
+  /\ choose_writer_p target None = Err.
+Proof. exact extension_paths. Qed.
+Print Assumptions C19_extension_paths.
+
 (* what the formats do not keep - the boundary of the theorems above, by computation *)
 Theorem C19_limits :
   enc_json ladder_today (TNp KBool 1) = Ok (JStr "True")
